@@ -103,7 +103,7 @@ func genC04(r *Rng, tier string, idx int) *Plan {
 		// the store fails to save the tokens of a callback whose exchange succeeded; the callback is then
 		// replayed: the login state must have been consumed by the successful exchange
 		p.Mode = "store-fault-then-replay"
-		p.Faults = append(p.Faults, Fault{Site: "store.SetTokenResponse", Nth: r.Range(1, nb), Kind: r.Pick([]string{"err-before", "err-after"})})
+		p.Faults = append(p.Faults, Fault{Site: "store.SetTokenResponse", Nth: r.Range(1, nb), Kind: r.Pick([]string{"err-before", "err-after", "redis-torn:2", "redis-torn:4", "redis-torn:6", "redis-torn:7"})})
 	}
 	return p
 }
@@ -237,6 +237,19 @@ func genC11(r *Rng, tier string, idx int) *Plan {
 		}
 		for i := 0; i < 3; i++ {
 			p.Faults = append(p.Faults, Fault{Site: "store.SetAuthorizationState", Nth: r.Range(2, 6), Kind: r.Pick([]string{"err-before", "err-after"})})
+		}
+		if r.Chance(0.5) {
+			// Redis goes away between two commands of a store call made by a refreshing check
+			p.Faults = append(p.Faults, Fault{Site: r.Pick([]string{"store.SetTokenResponse", "store.GetTokenResponse", "store.SetTokenResponse"}), Nth: r.Range(2, 6), Kind: fmt.Sprintf("redis-torn:%d", r.Range(2, 8))})
+		}
+	}
+	if idx%3 == 2 && r.Chance(0.6) {
+		// the caller (Envoy) gives up on a check while it is refreshing: the request context is cancelled during the
+		// exchange or right before one of the store calls around it; the provider and the in-memory store are unaffected
+		p.Mode = "caller-gives-up"
+		nf := r.Range(1, 2)
+		for i := 0; i < nf; i++ {
+			p.Faults = append(p.Faults, Fault{Site: r.Pick([]string{"idp.token", "idp.token", "store.SetTokenResponse", "store.GetTokenResponse"}), Nth: r.Range(2, 6), Kind: "ctx-cancel"})
 		}
 	}
 	if idx%3 == 0 {
